@@ -12,7 +12,12 @@
 (*     RD = 2500, rewards 2500 vs 2501 = 1 vs 1.0004): values, gains, relative values    *)
 (*     and action tables are linear in the rewards and every argmax / tie is invariant   *)
 (*     under the scaling, so all quantities below are in units of 1/RD and the emitted   *)
-(*     records carry `rd` for the harness to divide by.                                  *)
+(*     records carry `rd` for the harness to divide by.  In the other direction a reward *)
+(*     multiplier RM (field RM, default 1; the large-magnitude family uses RM = 900:     *)
+(*     costs of -900, -1800, ... per step) scales everything up: real reward =           *)
+(*     R * RM / RD, the records carry `rm`.  Nothing in the model depends on the         *)
+(*     magnitude of the rewards - in particular an unavailable action is never chosen,   *)
+(*     however bad the available ones are (RuleAvailable, Support within Avail).         *)
 (* (O) oracle: discounted -> MDP!OptimalValue; undiscounted -> Chain!GainOracle (closed  *)
 (*     classes, tree-theorem stationary weights, absorption probabilities, max over the  *)
 (*     deterministic policies).                                                          *)
@@ -46,6 +51,7 @@ Zero(m)  == [s \in St(m) |-> <<0, 1>>]
 AbsM(m)  == AbsAll(m)
 Unbound  == <<>>                      \* value of a local the code has not assigned yet
 Unit(m)  == IF "RD" \in DOMAIN m THEN m.RD ELSE 1     \* reward denominator: all values are in units of 1/RD
+Mult(m)  == IF "RM" \in DOMAIN m THEN m.RM ELSE 1     \* reward multiplier: ... times RM
 
 \* ------------------------------------------------------------------ oracle bundle
 Oracle(m) ==
@@ -185,14 +191,14 @@ JudgeRecord(m) ==
       okav == [s \in St(m) |-> \A a \in Ac(m) : w[s][a] > 0 => a \in Avail(m, s)]
       ok   == WeightsOK(m, w, ab)
       pv   == IF ~ok THEN <<>> ELSE IF Discounted(m) THEN DiscValue(m, w, ab) ELSE PolicyGain(m, w, ab)
-  IN [iid |-> iid, kind |-> "judge", tag |-> m.tag, rd |-> Unit(m), wellformed |-> ok, availok |-> okav, pv |-> pv,
+  IN [iid |-> iid, kind |-> "judge", tag |-> m.tag, rd |-> Unit(m), rm |-> Mult(m), wellformed |-> ok, availok |-> okav, pv |-> pv,
       attains |-> IF ~ok THEN <<>> ELSE [s \in St(m) |-> pv[s] = <<m.exp[s][1], m.exp[s][2]>>],
       stop |-> IF ~ok THEN <<>> ELSE StopGaps(m, w)]
 
 \* ------------------------------------------------------------------ emission
 Emit ==
   /\ phase = "inst" =>
-       PrintT(ToJson([iid |-> iid, kind |-> "oracle", rd |-> Unit(M), disc |-> opt.disc, v |-> opt.v, init |-> opt.init,
+       PrintT(ToJson([iid |-> iid, kind |-> "oracle", rd |-> Unit(M), rm |-> Mult(M), disc |-> opt.disc, v |-> opt.v, init |-> opt.init,
                       nvals |-> opt.nvals, maxcls |-> opt.maxcls, mincls |-> opt.mincls,
                       absall |-> AbsM(M)]))
   /\ Terminal =>
